@@ -55,7 +55,7 @@ func factsHnsw() {
 		unrec("level0_uses_mmax0", "bool", "Insert not found")
 		unrec("links_both_ways", "bool", "Insert not found")
 	} else {
-		known("search_beam_is_max_ef_k", "bool", b(strings.Contains(se, "ef := math.MaxInt(this.config.ef, int(k)) neighbors := this.searchLevel(query, entrypoint, ef, 0)")), "Search: level-0 beam width max(ef, k)")
+		known("search_beam_is_max_ef_k", "bool", b(strings.Contains(se, "ef := math.MaxInt(this.config.ef, math.MinInt(int(k), int(this.Len()))) neighbors := this.searchLevel(query, entrypoint, ef, 0)")), "Search: level-0 beam width max(ef, min(k, Len()))")
 		known("level0_uses_mmax0", "bool", b(strings.Contains(ins, "mMax := this.config.mMax if l == 0 { mMax = this.config.mMax0 }") && strings.Contains(ins, "if neighbor.edgesCount(l) > mMax { this.pruneNeighbors(neighbor, mMax, l) }")), "Insert: a neighbour is pruned only when it exceeds mMax (mMax0 on level 0)")
 		known("links_both_ways", "bool", b(strings.Contains(ins, "vertex.addEdge(l, neighbor, item.Priority()) neighbor.addEdge(l, vertex, item.Priority())")), "Insert links the new vertex and each selected neighbour in both directions")
 	}
